@@ -341,11 +341,11 @@ type storageGen struct {
 	ips       []string
 	blocks    int
 	lastBuy   *sttypes.MsgBuyStorage
-	signSoon  int // forms profile: the next few operations are signatures on open forms (after the quorum parameters moved)
+	signSoon  int                  // forms profile: the next few operations are signatures on open forms (after the quorum parameters moved)
 	lastPost  *sttypes.MsgPostFile // the last pay-once posting and the height it was sent at
 	lastPostH int64
-	burst     int // how many more equal purchases follow at once (three and more deposits into one gauge id)
-	noBlock   int // steps during which no block boundary is taken (so that a burst stays in one block)
+	burst     int        // how many more equal purchases follow at once (three and more deposits into one gauge id)
+	noBlock   int        // steps during which no block boundary is taken (so that a burst stays in one block)
 	pg        *pager     // page requests of the query records
 	qr        *rand.Rand // a generator of its own for the query records: the message histories of a seed do not depend on them
 	noGauges  bool       // a history without any payment gauge: plans come from genesis, nothing is bought or paid once
@@ -1009,7 +1009,8 @@ func runStorage(profile string, seed int64, histories, steps int, out *Emitter) 
 					}
 				case 6, 8: // the form size moves while forms of the old size are open
 					np.AttestFormSize = []int64{1, 2, 2, 3, 3, 4}[r.Intn(6)]
-					if np.AttestMinToPass > np.AttestFormSize {
+					if np.AttestMinToPass > np.AttestFormSize && r.Intn(3) > 0 {
+						// (not always: each key has its own validator, a proposal may leave the minimum above the size)
 						np.AttestMinToPass = np.AttestFormSize
 					}
 					if profile == "forms" {
@@ -1194,5 +1195,5 @@ func (c *Chain) storageGenesisJ() interface{} {
 		"params": map[string]interface{}{"proofWindow": p.ProofWindow, "checkWindow": p.CheckWindow, "chunkSize": p.ChunkSize, "pricePerTbPerMonth": p.PricePerTbPerMonth,
 			"collateralPrice": p.CollateralPrice, "attestFormSize": p.AttestFormSize, "attestMinToPass": p.AttestMinToPass, "referralCommission": p.ReferralCommission, "polRatio": p.PolRatio},
 		"fileList": files, "providersList": provs, "paymentInfoList": pays, "collateralList": colls, "activeProvidersList": act,
-		"reportForms": reps, "attestForms": atts, "paymentGauges": gauges, "proofList": proofs}
+		"reportForms": reps, "attestForms": atts, "paymentGauges": gauges, "proofList": proofs, "validateOk": gs.Validate() == nil}
 }
